@@ -57,6 +57,22 @@ void harness(void)
 	V_COVER("default line", r == 0);
 	V_CANARY();
 }
+#elif defined(UNIT_CSET)
+/* mpt_color_set: the three channels as given, opaque - whatever the colour held before; out of range values refused */
+void harness(void)
+{
+	IN(int, in_r); IN(int, in_g); IN(int, in_b); MPT_STRUCT(color) col, old; uint8_t in_pre[sizeof(MPT_STRUCT(color))]; int r;
+	V_FILL(in_pre);
+	memcpy(&col, in_pre, sizeof(col)); old = col;
+	r = mpt_color_set(&col, in_r, in_g, in_b);
+	if (in_r < 0 || in_r > 255 || in_g < 0 || in_g > 255 || in_b < 0 || in_b > 255) {
+		V_CHECK("color_set: a channel outside 0..255 is refused, the colour untouched", r < 0 && memcmp(&col, &old, sizeof(col)) == 0);
+	} else {
+		V_CHECK("color_set: channels as given, opaque, whatever was there before", r >= 0 && col.red == in_r && col.green == in_g && col.blue == in_b && col.alpha == 255);
+	}
+	V_COVER("translucent colour overwritten", r >= 0 && old.alpha != 255);
+	V_CANARY();
+}
 #elif defined(UNIT_HTML)
 /* html colour text "RRGGBB[AA]" (hex pair parser by stand-in): every channel incl. alpha is stored as parsed */
 static int g_pairs; static uint8_t g_vals[4]; static int g_fail_at;
